@@ -88,7 +88,8 @@ def floors(tier):
               "decided:reentry_with_criterion_holding": 30 * k, "ended_by_criterion_after_exhaustion_with_trials_running": 5 * k,
               "decided:criterion_at_loop_start": 5000 * k,
               "decided:second_experiment_sharing_thresholds": 20 * k,
-              "runs:thresholded_metric_nan_in_first_report": 15 * k})
+              "runs:thresholded_metric_nan_in_first_report": 8 * k, "decided:cost_vs_history": 300 * k,
+              "field_decided:max_cost": 15 * k, "runs:jobs_stopped_from_outside": 15 * k})
     return f
 
 
@@ -158,6 +159,18 @@ def expand(spec):
         stop.setdefault("max_num_trials_started", 40)
     if kind in ("hb_stopping", "hb_promotion", "hb_pasha", "sync_hb", "moasha") and "max_num_trials_completed" in stop:
         stop.setdefault("max_num_trials_started", 40)  # these kinds never 'complete' a trial
+    r2 = random.Random(spec["seed"] + 77)
+    if spec["backend"] != "sim" and ending in ("criterion", "exception") and r2.random() < 0.3:
+        # cost budget: the scripted workers report st_worker_cost like a job on a priced instance does (the counter restarts with
+        # every run of a trial); total cost = sum over trials of the largest cost reported
+        stop = {"max_cost": r2.uniform(4.0, 60.0)}
+        if r2.random() < 0.3:
+            stop["max_num_evaluations"] = r2.randint(20, 120)
+        stop.setdefault("max_num_trials_started", 40)
+        p["plan"]["dollar_cost"] = r2.choice([0.5, 1.0, 2.0])
+    if spec["backend"] != "sim" and ending == "criterion" and r2.random() < 0.3:
+        # jobs interrupted from outside (the backend reports them stopped although nobody asked for it)
+        p["plan"]["ext_stop"] = {f"{r2.randint(0, 6)}:{r2.choice([0, 0, 1])}": r2.randint(1, max(1, lv - 1)) for _ in range(r2.randint(1, 3))}
     p["stop"] = stop
     p["max_failures"] = 100
     if ending == "failure_limit":
@@ -194,9 +207,13 @@ class _OwnStats:
     def __init__(self):
         self.count = 0
         self.min_metrics, self.max_metrics = {}, {}
+        self.trial_cost = {}
 
-    def add(self, res):
+    def add(self, res, trial=None):
         self.count += 1
+        c = res.get("st_worker_cost")
+        if trial is not None and isinstance(c, (int, float)) and c == c:
+            self.trial_cost[trial] = max(self.trial_cost.get(trial, c), c)
         for k, v in res.items():
             if isinstance(v, bool) or not isinstance(v, (int, float)) or v != v:
                 continue
@@ -219,6 +236,12 @@ def ref_criterion(stop, st, sim, own=None):
                 hold.append(f)
         elif f == "max_num_evaluations":
             if oms.count > v:
+                hold.append(f)
+        elif f == "max_cost":
+            if own is not None:
+                if sum(own.trial_cost.values()) > v:
+                    hold.append(f)
+            elif st.cost > v:
                 hold.append(f)
         elif f == "max_num_trials_started":
             if st.num_trials_started > v:
@@ -250,6 +273,8 @@ def run_case(spec):
     kind = p["kind"]
     if p.get("wait"):
         o.count("runs:wait_trial_completion")
+    if (p.get("plan") or {}).get("ext_stop"):
+        o.count("runs:jobs_stopped_from_outside")
     import copy
 
     ref_stop = copy.deepcopy(p["stop"])  # the reference reads the criterion as the user wrote it, whatever happens to the objects later
@@ -284,7 +309,7 @@ def run_case(spec):
             seen["i"] += 1
             if e_[1] == "b.fetch_status_results.ret":
                 for _t, res_ in e_[2]["ret"]["results"]:
-                    own.add(res_)
+                    own.add(res_, _t)
         return own
 
     class Watch(TunerCallback):
@@ -298,7 +323,7 @@ def run_case(spec):
             st = tuner.tuning_status
             hold = ref_criterion(ref_stop, st, sim, own_stats())
             failed_over = st.num_trials_failed > p["max_failures"]
-            rec.ev("h.loop_end", hold=hold, failed_over=failed_over,
+            rec.ev("h.loop_end", hold=hold, failed_over=failed_over, cost=(float(st.cost), float(sum(own.trial_cost.values()))),
                    counters={"started": st.num_trials_started, "completed": st.num_trials_completed,
                              "failed": st.num_trials_failed, "finished": st.num_trials_finished,
                              "running": st.num_trials_running, "evals": st.overall_metric_statistics.count})
@@ -361,11 +386,24 @@ def run_case(spec):
             o.violate(clause, mech, dict(d, kind=kind, backend=spec["backend"], stop=p["stop"], wait=p.get("wait")))
         viol[0] = True
 
+    alive_jobs, dead_loops = set(), 0
     for idx, k, pl in events:
         if k == "c.tuning_end":
             tuning_ended = True
         if tuning_ended:
             continue
+        if k == "w.spawn":
+            alive_jobs.add(pl["trial"])
+            dead_loops = 0
+        elif k in ("w.job_end", "w.external_stop"):
+            alive_jobs.discard(pl["trial"])
+        elif k in ("b.stop_trial.ret", "b.pause_trial.ret"):
+            alive_jobs.discard(pl["trial_id"])
+        if k == "c.loop_start" and not sim and started > 0:
+            dead_loops = dead_loops + 1 if not alive_jobs else 0
+            if dead_loops > 150:  # bounded progress, in loop iterations: every job has ended, none is started, the loop goes on
+                V("run_ends", "loop_goes_on_with_no_job_alive" + (":after_a_job_was_stopped_from_outside" if p["plan"].get("ext_stop") else ""),
+                  iterations_without_a_job=dead_loops, criterion_held=first_hold is not None)
         if k == "c.loop_start":
             n_loops += 1
             if suggest_none_at is not None and not any(v == "InProgress" for v in status.values()):
@@ -422,6 +460,12 @@ def run_case(spec):
                 status[t] = "Stopped"
         elif k == "h.loop_end":
             o.count("decided:loop_ends")
+            if "max_cost" in ref_stop:
+                # what the cost budget is compared with: the sum over trials of the largest cost any of their reports carried
+                o.count("decided:cost_vs_history")
+                if abs(pl["cost"][0] - pl["cost"][1]) > 1e-9 * max(1.0, abs(pl["cost"][1])):
+                    V("cost_budget", "tuning_status_cost_differs_from_the_cost_reported_so_far" + (":below" if pl["cost"][0] < pl["cost"][1] else ":above"),
+                      tuning_status_cost=pl["cost"][0], from_reports=pl["cost"][1])
             c = pl["counters"]
             mine = {"started": started, "completed": sum(v == "Completed" for v in status.values()),
                     "failed": sum(v == "Failed" for v in status.values()),
